@@ -348,6 +348,8 @@ impl<Aux> Vm<'_, Aux> {
              instr_ptr: usize,
              stack: &crate::collections::bounded_stack::BoundedStack<CallFrame>| {
                 #[cfg(feature = "verif-hooks")]
+                crate::verif_hooks::record_error_addr(instr_ptr as u64);
+                #[cfg(feature = "verif-hooks")]
                 if crate::verif_hooks::skip_error_trace() {
                     return ExecutionError::new(err, Vec::new());
                 }
